@@ -248,9 +248,14 @@ pub mod time {
         }
     }
     fn __verif_timer_fire(_deadline_ms: u64) -> bool {
-        match crate::CTL.lock().unwrap().timer_mode {
+        let c = crate::CTL.lock().unwrap();
+        match c.timer_mode {
             0 => false,
             1 => crate::nondet_bool(),
+            3 => {
+                c.timer_mode = 0;
+                true
+            }
             _ => true,
         }
     }
@@ -288,7 +293,7 @@ pub static TASKS: SeqCell<Tasks> = SeqCell::new(Tasks { slots: [None, None, None
 pub struct Ctl {
     /// false: `spawn` drops the task; true: it is registered in TASKS and polled by the harness
     pub spawn_register: bool,
-    /// Sleep polls: 0 = never complete, 1 = nondeterministic, 2 = always complete
+    /// Sleep polls: 0 = never complete, 1 = nondeterministic, 2 = always complete, 3 = complete once (then back to 0)
     pub timer_mode: u8,
     /// select! start branch: usize::MAX = nondeterministic (a witness draw per select), otherwise this index (mod #branches)
     pub select_start: usize,
@@ -380,6 +385,7 @@ pub trait VNow: std::future::Future + Sized {
 impl<F: std::future::Future> VNow for F {}
 
 include!("select.rs");
+include!("select_now.rs");
 
 #[macro_export]
 macro_rules! pin {
